@@ -104,6 +104,9 @@ impl<const L: usize> EnvDyn for Env<L> {
         json!({
             "books": [book_proj(b)],
             "env_orders": [crate::proj::orders_value(&self.get_orders())],
+            // the per-order getters of the environment: order(id) and order_status(id) for every id
+            "env_order_by_id": [(0..self.get_orders().len()).map(|i| crate::proj::order_tuple(self.order(i))).collect::<Vec<_>>()],
+            "env_statuses": [(0..self.get_orders().len()).map(|i| json!(crate::proj::status_s(self.order_status(i)))).collect::<Vec<_>>()],
             "env_trades": [crate::proj::trades_value(self.get_trades())],
             "now": b.get_time(),
             "pending": pend,
@@ -163,6 +166,8 @@ impl<const A: usize, const L: usize> EnvDyn for MarketEnv<A, L> {
         json!({
             "books": (0..A).map(|a| book_proj(m.get_order_book(a))).collect::<Vec<_>>(),
             "env_orders": (0..A).map(|a| crate::proj::orders_value(&self.get_orders(a))).collect::<Vec<_>>(),
+            "env_order_by_id": (0..A).map(|a| (0..self.get_orders(a).len()).map(|i| crate::proj::order_tuple(self.order((a, i)))).collect::<Vec<_>>()).collect::<Vec<_>>(),
+            "env_statuses": (0..A).map(|a| (0..self.get_orders(a).len()).map(|i| json!(crate::proj::status_s(self.order_status((a, i))))).collect::<Vec<_>>()).collect::<Vec<_>>(),
             "env_trades": (0..A).map(|a| crate::proj::trades_value(self.get_trades(a))).collect::<Vec<_>>(),
             "now": m.get_time(),
             "pending": pend,
